@@ -232,6 +232,23 @@ type Case struct {
 	Kinds   int          `json:"kinds"`
 }
 
+// persistRestore writes the snapshot out, restores it into a fresh replica and compares that replica with the catalogue
+// replica A held at the snapshot position
+func persistRestore(cs *Case, snap raft.FSMSnapshot, atSnap any, report func(int, string, []string)) *Replica {
+	sink := &bufSink{}
+	if err := snap.Persist(sink); err != nil {
+		fmt.Fprintln(os.Stderr, "persist:", err)
+	}
+	C := newReplica(cs.PtPer)
+	if err := C.fsm.Restore(io.NopCloser(bytes.NewReader(sink.Bytes()))); err != nil {
+		fmt.Fprintln(os.Stderr, "restore:", err)
+	}
+	var pr []string
+	diff(atSnap, dumpData(C.fsm.Data()), "", &pr, 40)
+	report(cs.SnapAt, "A-C@restore", pr)
+	return C
+}
+
 func runCase(cs *Case) {
 	A, D := newReplica(cs.PtPer), newReplica(cs.PtPer)
 	var C *Replica
@@ -259,6 +276,10 @@ func runCase(cs *Case) {
 		if i == cs.SnapAt {
 			snap, _ = D.fsm.Snapshot()
 			atSnap = dumpData(A.fsm.Data())
+			if cs.Delay == 0 {
+				C = persistRestore(cs, snap, atSnap, report)
+				pending = cs.SnapAt
+			}
 		}
 		ra := A.apply(i, b)
 		rd := D.apply(i, b)
@@ -272,17 +293,7 @@ func runCase(cs *Case) {
 		report(i, "A-D", ps)
 		if snap != nil && C == nil && i+1 >= cs.SnapAt+cs.Delay {
 			// persist now (Delay commands after the snapshot was taken) and restore into a fresh replica
-			sink := &bufSink{}
-			if err := snap.Persist(sink); err != nil {
-				fmt.Fprintln(os.Stderr, "persist:", err)
-			}
-			C = newReplica(cs.PtPer)
-			if err := C.fsm.Restore(io.NopCloser(bytes.NewReader(sink.Bytes()))); err != nil {
-				fmt.Fprintln(os.Stderr, "restore:", err)
-			}
-			var pr []string
-			diff(atSnap, dumpData(C.fsm.Data()), "", &pr, 40)
-			report(cs.SnapAt, "A-C@restore", pr)
+			C = persistRestore(cs, snap, atSnap, report)
 			pending = cs.SnapAt
 		}
 		if C != nil {
